@@ -15,7 +15,7 @@ Open Scope N_scope.
 Definition pv_member := (string * N * N)%type.                   (* name, header number, record size *)
 Definition pv_empty_row := (N * N * N * N)%type.                 (* BSP version, header number, named beforehand, recorded *)
 Definition pv_sized_row := (N * N * N * N * N * N * N)%type.     (* BSP version, header number, record size, named, recorded, decoded with, ladder *)
-Definition pv_writer_row := (N * N * N * N)%type.                (* recorded before, recorded after, written in, ladder *)
+Definition pv_writer_row := (N * N * N * N * N)%type.            (* recorded before, recorded after, written in, ladder, header number set (255 = left as it was) *)
 Definition pv_cfg := (list pv_member * list N * list pv_empty_row * list pv_sized_row * list pv_writer_row)%type.
 
 Definition PV_ERR : N := 255.
@@ -46,46 +46,60 @@ Definition read_sized (c : pv_cfg) (bv h sz st : N) : option (option (N * N * N)
   | None => None
   end.
 
-(** result: format recorded afterwards, format the records are written in, ladder number *)
-Definition write_props (c : pv_cfg) (st : N) : option (option (N * N * N)) :=
-  match find (fun r : pv_writer_row => let '(p, _, _, _) := r in p =? st) (c_writer c) with
-  | Some (_, r, w, l) => Some (if r =? PV_ERR then None else Some (r, w, l))
+(** result: format recorded afterwards, format the records are written in, ladder number, header number save() will write
+    given the header number [h] of the file that was opened *)
+Definition write_props (c : pv_cfg) (st h : N) : option (option (N * N * N * N)) :=
+  match find (fun r : pv_writer_row => let '(p, _, _, _, _) := r in p =? st) (c_writer c) with
+  | Some (_, r, w, l, hw) => Some (if r =? PV_ERR then None else Some (r, w, l, if hw =? PV_ERR then h else hw))
   | None => None
   end.
 
+(** save with recorded format [st] into a file opened with header number [h], then a fresh object of the same BSP version reads
+    the file.  Result: (format written in, ladder of the writer, what the fresh reader does). *)
+Definition save_reread (c : pv_cfg) (bv h st : N) : option (N * N * option (N * N * N)) :=
+  match write_props c st h with
+  | Some (Some (_, w, lw, h')) =>
+    match size_of c w with
+    | Some sz => match read_sized c bv h' sz 0 with Some r => Some (w, lw, r) | None => None end
+    | None => None
+    end
+  | _ => None
+  end.
+
 (** History 1: a fresh object reads a file whose lump is EMPTY (BSP version [bv], header number [h]); props are assigned; the
-    object saves - the header number of the game lump stays [h], the records have the size of the format written in -; a fresh
-    object reads that file.  Result: (format written in, ladder of the writer, what the fresh reader does). *)
+    object saves - the records have the size of the format written in -; a fresh object reads that file. *)
 Definition hist_from_empty (c : pv_cfg) (bv h : N) : option (option (N * N * option (N * N * N))) :=
   match read_empty c bv h 0 with
   | None => None
   | Some None => Some None                         (* the empty lump is rejected: nothing is written *)
-  | Some (Some st) =>
-    match write_props c st with
-    | Some (Some (_, w, lw)) =>
-      match size_of c w with
-      | Some sz => match read_sized c bv h sz 0 with Some r => Some (Some (w, lw, r)) | None => None end
-      | None => None
-      end
-    | _ => None
-    end
+  | Some (Some st) => option_map Some (save_reread c bv h st)
   end.
+
+(** History 3: a fresh object opens a file (header number [h]), props are assigned WITHOUT the lump ever being read - no format
+    is recorded -, the object saves, a fresh object reads. *)
+Definition hist_never_read (c : pv_cfg) (bv h : N) : option (N * N * option (N * N * N)) := save_reread c bv h 0.
+
+Definition reread_ok (x : option (N * N * option (N * N * N))) : bool :=
+  match x with Some (w, lw, Some (r, d, ld)) => (d =? w) && (r =? w) && (ld =? lw) | _ => false end.
 
 Definition hist_from_empty_ok (c : pv_cfg) (bv h : N) : bool :=
   match hist_from_empty c bv h with
   | Some None => true
-  | Some (Some (w, lw, Some (r, d, ld))) => (d =? w) && (r =? w) && (ld =? lw)
-  | _ => false
+  | Some (Some x) => reread_ok (Some x)
+  | None => false
   end.
+Definition hist_never_read_ok (c : pv_cfg) (bv h : N) : bool := reread_ok (hist_never_read c bv h).
 
 (** History 2: the caller names the format [m] (`bsp.static_prop_version = m`, header number of [m]) and saves at least one
     prop; a fresh object reads the file.  The writer must write in [m]; the reader must settle on a format with the header
     number and record size of [m] - which is [m] itself when no other member has that pair, and then it must run the writer's
     ladder.  (Where two members share the pair the file cannot say which one it holds: the caller names it to the reader.) *)
 Definition hist_named_ok (c : pv_cfg) (bv m : N) : bool :=
-  match write_props c m, hdr_of c m, size_of c m with
-  | Some (Some (r, w, lw)), Some h, Some sz =>
-    (r =? m) && (w =? m) &&
+  match hdr_of c m, size_of c m with
+  | Some h, Some sz =>
+    match write_props c m h with
+    | Some (Some (r, w, lw, h')) =>
+    (r =? m) && (w =? m) && (h' =? h) &&
     match read_sized c bv h sz 0 with
     | Some (Some (r', d, ld)) =>
       (r' =? d) && (negb (d =? m) || (ld =? lw)) &&
@@ -94,7 +108,9 @@ Definition hist_named_ok (c : pv_cfg) (bv m : N) : bool :=
     end &&
     (* the caller may also name the format to the reader: it is believed *)
     match read_sized c bv h sz m with Some (Some (r', d, ld)) => (r' =? m) && (d =? m) && (ld =? lw) | _ => false end
-  | _, _, _ => false
+    | _ => false
+    end
+  | _, _ => false
   end.
 
 Definition member_ids (c : pv_cfg) : list N := map (fun k => N.of_nat (S k)) (seq 0 (List.length (c_members c))).
@@ -103,10 +119,14 @@ Definition pv_from_empty_ok (c : pv_cfg) : bool :=
   forallb (fun bv => forallb (fun h => hist_from_empty_ok c bv h) pv_hdrs) (c_bsp c).
 Definition pv_named_ok (c : pv_cfg) : bool :=
   forallb (fun bv => forallb (fun m => hist_named_ok c bv m) (member_ids c)) (c_bsp c).
-Definition pv_ok (c : pv_cfg) : bool := pv_from_empty_ok c && pv_named_ok c && negb (N.of_nat (List.length (c_members c)) =? 0).
+Definition pv_never_read_ok (c : pv_cfg) : bool :=
+  forallb (fun bv => forallb (fun h => hist_never_read_ok c bv h) pv_hdrs) (c_bsp c).
+Definition pv_ok (c : pv_cfg) : bool :=
+  pv_from_empty_ok c && pv_named_ok c && pv_never_read_ok c && negb (N.of_nat (List.length (c_members c)) =? 0).
 
 (** one BSP version / one header number at a time (named obligations of the check) *)
 Definition pv_from_empty_ok_hdr (c : pv_cfg) (h : N) : bool := forallb (fun bv => hist_from_empty_ok c bv h) (c_bsp c).
+Definition pv_never_read_ok_hdr (c : pv_cfg) (h : N) : bool := forallb (fun bv => hist_never_read_ok c bv h) (c_bsp c).
 
 (** is [m] the only member with its (header number, record size)? *)
 Definition unique_pair (c : pv_cfg) (m : N) : bool :=
@@ -123,9 +143,15 @@ Definition pv_first_match_cfg : pv_cfg :=
   ([("A"%string, 11, 80); ("B"%string, 11, 80)], [20],
    [(20, 11, 0, 1)],
    [(20, 11, 80, 0, 2, 2, 7)],
-   [(1, 1, 1, 11); (2, 2, 2, 7)]).
+   [(1, 1, 1, 11, 255); (2, 2, 2, 7, 255)]).
 Definition pv_last_match_cfg : pv_cfg :=
   ([("A"%string, 11, 80); ("B"%string, 11, 80)], [20],
    [(20, 11, 0, 2)],
    [(20, 11, 80, 0, 2, 2, 7)],
-   [(1, 1, 1, 11); (2, 2, 2, 7)]).
+   [(1, 1, 1, 11, 255); (2, 2, 2, 7, 255)]).
+(** The writer falls back to format 1 (header number 5) when nothing is recorded, and leaves the header number of the file
+    (10) as it was: the fresh reader looks for (10, 60 bytes) and raises.  Setting the header number passes. *)
+Definition pv_header_left_cfg : pv_cfg :=
+  ([("A"%string, 5, 60); ("B"%string, 10, 76)], [20], [], [(20, 10, 60, 0, 255, 0, 0); (20, 5, 60, 0, 1, 1, 5)], [(0, 1, 1, 5, 255)]).
+Definition pv_header_set_cfg : pv_cfg :=
+  ([("A"%string, 5, 60); ("B"%string, 10, 76)], [20], [], [(20, 10, 60, 0, 255, 0, 0); (20, 5, 60, 0, 1, 1, 5)], [(0, 1, 1, 5, 5)]).
